@@ -68,6 +68,15 @@ add('C17', 'model_checking',
     'Reference model = the accessor docstrings; corner ids/coordinates represent the interior (affine index arithmetic).',
     'DESIGN.md 5/C17')
 
+add('C07', 'exploration',
+    'bounded-exhaustive enumeration of source texts (all strings <=4/5 over a 26-character decision alphabet, all ordered '
+    'pairs/triples of token-class representatives, keyword embeddings, multi-line forms) through the real lexer, judged by '
+    'an independent hand-written reference lexer; chunked vs unchunked feeding compared',
+    'Complete enumeration of the stated text spaces; every accepted text is compared token by token (kind, extent, decoded '
+    'string bytes, numeric value, line/column) and re-fed split at line ends.',
+    'Reference lexer lib/reflex.py (Lua 5.2 llex semantics + dialect extensions); rejected texts demand nothing.',
+    'DESIGN.md 3/C07')
+
 PENDING = {
 }
 
